@@ -13,7 +13,7 @@ RULE = ("worlds from dsim.world (1-8 stations, chains of sessions per station wi
         "shared 'hot' timestamps, extra recompute events, all parties); non-trivial = run with >=1 back-to-back "
         "station reuse or >=1 period with >=3 events; distinct = distinct per-period history signature "
         "<event kinds, invoked?, fault, #connected, #charging>")
-PROBES = ["back_to_back", "pileup3", "recompute_only_period", "resumed", "stay1", "idle_prefix", "crash_last_period",
+PROBES = ["can_receive_current_checked", "back_to_back", "pileup3", "recompute_only_period", "resumed", "stay1", "idle_prefix", "crash_last_period",
           "constraint_free_sorted", "custom_event_in_run", "resume_json", "stochastic_network_world", "stochastic_json_resume", "second_life", "duplicate_session_id_world"]
 FAULT_DIMENSION = "scheduler crash at arbitrary calls (incl. last period), resumed by rerun or via a JSON save/load of the simulator"
 ASSUMPTIONS = ["sessions of one station do not overlap (generator guarantees it)",
@@ -134,6 +134,21 @@ def check(sc):
             if v[0] != exp:
                 out.add("C01/occupancy", "t=%d station %s holds %s expected %s" % (t, st, v[0], exp))
                 break
+        # 5b. a connected EV *can* receive current: ideal battery with room left after the period + positive pilot => positive rate
+        if not stoch and p["rates"] is not None and p["pilots"] is not None:
+            for i, st in enumerate(p["st"].keys()):
+                sid_, _, _, chg = p["st"][st]
+                if sid_ is None or p["pilots"][i] <= 1e-6:
+                    continue
+                m_ = next((x for x in by_station.get(st, []) if x["session_id"] == sid_ and x["arrival"] <= t < x["departure"]), None)
+                if m_ is None or m_["battery"]["type"] != "Battery" or m_["battery"]["max_power"] <= 0:
+                    continue
+                if chg < m_["battery"]["capacity"] * (1 - 1e-9) - 1e-9:
+                    out.probe("can_receive_current_checked")
+                    if not p["rates"][i] > 0:
+                        out.add("C01/connected_not_charging", "t=%d station %s session %s: pilot %r A, ideal battery at %r of %r kWh, recorded rate %r"
+                                % (t, st, sid_, p["pilots"][i], chg, m_["battery"]["capacity"], p["rates"][i]))
+                        break
         # 5. rate only where connected
         ids = list(p["st"].keys())
         if p["rates"] is not None:
